@@ -55,38 +55,49 @@ CLAIMS = {
         "design": "DESIGN.md 5.3",
     },
     "C04": {
-        "text": "client::message::Request::handle_response for all eight request kinds with a symbolic reply PDU: success iff "
-                "function code, exact length and (for writes) echo match; returned values are the reply's bits/registers "
-                "indexed from the start address (symbolic probe of every item); [fc|0x80, code] yields exactly "
-                "Exception(code) for all 256 codes; every other reply is a non-exception error; the promise is completed "
-                "exactly once. Callback and oneshot (future-style) promise flavours.",
-        "note": "Bounds: <=9 bits / <=2 registers and replies of <=4/6 bytes in the quick tier (24 bits / 4 registers thorough); "
-                "oneshot flavour with 2 items (a symbolic-length Vec exhausts memory). Byte-count field of read replies is a "
+        "text": "Client reply handling against a reference classifier. (a) Request::handle_response / get_error_for / "
+                "SingleWrite / MultipleWriteRequest for the four write kinds with EVERY reply PDU of 0..7 bytes: success iff "
+                "function code, exact length and echo match; [fc|0x80, code] yields exactly Exception(code) for all 256 codes; "
+                "every other reply is a non-exception error; exactly-one completion incl. the caller's fail(). This also "
+                "decides the function-code/exception dispatch, which does not depend on the request kind. (b) Read replies are "
+                "decided one layer down, on ReadBits::handle_response / ReadRegisters::handle_response with the reply body: "
+                "exact-length rule, item count, item addresses from the start address, one completion; registers also by "
+                "value (big endian). (c) BitIterator/RegisterIterator::next from an ARBITRARY (range, position): address and "
+                "value (LSB-first bit / big-endian register) of every item. (d) the oneshot (future-style) promise flavour.",
+        "note": "Bounds actually decided: writes - all replies <= 7 bytes; register reads - count 1..3, body <= 8 bytes; BIT reads - "
+                "count 1..2, body <= 3 bytes only (never crosses a byte boundary): 9 bits / 4 bytes ran out of 30 GB in the solver "
+                "three times; bit VALUES for all positions come from the iterator step lemma (c), not from the reply harness. "
+                "Read requests are not wrapped in Request/RequestDetails and are mem::forget-ed: dropping a Request reaches the "
+                "tokio oneshot sender's drop glue and made even a 2-bit query intractable. Byte-count field of read replies is a "
                 "don't-care (the property states 'exactly the length implied by the request').",
         "design": "DESIGN.md 5.4",
     },
     "C05": {
-        "text": "MbapParser::parse from an ARBITRARY ReadBuffer state (any offset in the 260-byte array, arbitrary residue) "
-                "for every stream of <=12 bytes and every split point of its delivery, against a reference framer: need-more / "
-                "error (protocol id, length 0, length > 254) / frame with exact consumption; the 254/255 boundary with a full "
-                "260-byte buffer; ReadBuffer::read_some as one step from an arbitrary state over the in-memory transport "
-                "(content preserved in order, compaction at the end of the array, progress); and FramedReader::next_frame end "
-                "to end where EVERY read returns a solver-chosen chunk size (segmentation independence within 10 bytes).",
-        "note": "The parser step and the read step are inductive (arbitrary state); the end-to-end query ties them together "
-                "within its bound. TLS delivers the same byte stream through the same reader and is outside.",
+        "text": "MbapParser::parse from an ARBITRARY ReadBuffer state (any offset in the 260-byte array, arbitrary residue) for "
+                "every stream of <=12 bytes and every split point of its delivery, against a reference framer: need-more / error "
+                "(protocol id, length 0, length > 254) / frame with exact consumption and parser reset; the 254/255 boundary with "
+                "a full 260-byte buffer; ReadBuffer::read_some as ONE STEP FROM AN ARBITRARY STATE over the in-memory transport "
+                "(content preserved in order, compaction at the end of the array, appended bytes in arrival order, progress, one "
+                "transport read per call); the buffer accessors from an arbitrary state.",
+        "note": "The parser step and the read step are inductive (arbitrary state) and carry the argument to streams of any length. "
+                "The end-to-end query (FramedReader::next_frame with a solver-chosen chunk size at every read) ran out of memory "
+                "at 10-byte streams; it is kept in the thorough tier at 8 bytes and is NOT part of the quick verdict. TLS delivers "
+                "the same byte stream through the same reader and is outside.",
         "design": "DESIGN.md 5.5",
     },
     "C06": {
-        "text": "CRC: the crc crate's table step equals the bit-wise CRC-16/MODBUS step for all 2^24 (state, byte) pairs "
-                "(covers every frame length by induction); rodbus's CRC constant, init value and both code paths (checksum on "
-                "transmit, digest/update on receive) equal the fold of that step. Transmit: every reply/request frame built by "
-                "the C01/C03 queries over FrameWriter::rtu() ends with that CRC, low byte first. Receive: RtuParser::parse on "
-                "symbolic streams from an arbitrary buffer state accepts iff length rule and CRC hold, never acts on a partial "
-                "or corrupted frame, maps address 0 to broadcast, and gives the same result for every split of the delivery. "
-                "Thorough: corruption by 1 bit, 2 bits or a <=16-bit burst of any valid 8-byte frame is never accepted (real "
-                "parser), and the generator-polynomial lemma for all distances within 256 bytes.",
-        "note": "Frame sizes: <=10-byte streams quick, 13 thorough. The 256-byte limit on transmit is decided by C03's limit "
-                "queries. Serial driver outside.",
+        "text": "CRC implementation and the TRANSMIT side only. The crc crate's table step equals the bit-wise CRC-16/MODBUS step "
+                "for all 2^24 (state, byte) pairs (covers every frame length by induction); rodbus's CRC constant, init value and "
+                "BOTH code paths (checksum used on transmit, digest/update/finalize used on receive) equal the fold of that step; "
+                "every RTU reply built by the C01 kernels and every RTU request built by the C03 encoders ends with that CRC, low "
+                "byte first; the 256-byte limit on emitted frames is decided by C03's limit queries. Thorough: generator-"
+                "polynomial lemma (1-bit, 2-bit within 256 bytes, bursts <= 16 bits are detectable by this CRC).",
+        "note": "NOT decided - measured, not assumed: the RECEIVE side. 'RtuParser::parse accepts iff length rule and CRC hold' and "
+                "'same result for every chunking' could not be decided: five variants (streams of 10, 8 and 5 bytes; symbolic and "
+                "concrete buffer offset; an 8-byte frame split at every point) all ended with the solver dying at 30 GB after "
+                "3-6 minutes, independent of input size. The harnesses are kept unregistered (zz06_*, ./check --dev zz06_). "
+                "Consequence: a change to the CRC comparison or to the length derivation inside RtuParser::parse is NOT detected "
+                "by this check (both seeded C06 mutations are missed). Serial driver outside.",
         "design": "DESIGN.md 5.6",
     },
     "C07": {
@@ -158,13 +169,16 @@ CLAIMS = {
         "design": "DESIGN.md 5.16",
     },
     "C17": {
-        "text": "SessionTask::handle_frame executed WHOLE over the in-memory transport (MAX_ADU_LENGTH=13, hook H3): for every "
-                "unit id 0..255 against a one-unit map, a valid write, a malformed request, an unsupported function and an "
-                "empty frame are answered iff addressed to the configured unit (zero bytes written otherwise); RTU broadcast "
-                "writes reach every unit of a two-unit map exactly once and nothing is ever transmitted; broadcast reads, "
-                "malformed and unsupported broadcasts are ignored. RtuParser maps address 0 to Broadcast (C06 queries).",
-        "note": "Function codes are fixed per query (write single register/coil, read holding registers, five unsupported "
-                "representatives; full tables in C01). Short frames (hook H3); pty sessions outside.",
+        "text": "SessionTask::handle_frame executed WHOLE over the in-memory transport (MAX_ADU_LENGTH=13, hook H3), one fixed "
+                "function code per query, EVERY unit id 0..255 against a one-unit map: a valid write, a malformed request, an "
+                "unsupported function and an empty frame are answered iff addressed to the configured unit and nothing is written "
+                "otherwise; on RTU a broadcast read is ignored and a broadcast write reaches every unit of a two-unit map exactly "
+                "once with nothing transmitted.",
+        "note": "The glue harnesses construct the Broadcast destination themselves: that the RTU parser maps address 0 to Broadcast "
+                "is NOT decided (the receive-side parser harnesses are intractable, see C06). Function codes are fixed per query "
+                "(write single register/coil, read holding registers, 0x2B as unsupported representative; full tables in C01). "
+                "Each glue query needs 10-36 GB and 5-10 minutes; they run at most 4 at a time. Short frames (hook H3); pty "
+                "sessions outside.",
         "design": "DESIGN.md 5.17",
     },
     "C18": {
